@@ -54,7 +54,18 @@ Inductive vexpr :=
 (* --- gnn/layer.py: Convolution.forward (C19) --- *)
 | XSqrt (a : vexpr)                       (* np.sqrt(v) *)
 | XAddSelfLoops (a : vexpr)               (* add_self_loops(M): M + I on the (rectangular) diagonal *)
-| XIfFlag (x : string) (t e : vexpr).     (* t if <boolean attribute x> else e *)
+| XIfFlag (x : string) (t e : vexpr)      (* t if <boolean attribute x> else e *)
+(* --- classification/metrics.py (C13) --- *)
+| XAnd (a b : vexpr)                      (* mask & mask *)
+| XGt0 (a : vexpr)                        (* v > 0              -> mask *)
+| XZeros (n : vexpr)                      (* np.zeros(n) *)
+| XIfCount (c t : vexpr)                  (* if c: t  else: raise      (c a count; the raise is the value None) *)
+| XMaskLab (a m : vexpr)                  (* labels[mask] *)
+| XCoo (data row col n : vexpr)           (* sparse.csr_matrix((data, (row, col)), shape=(n, n)): duplicate positions are summed *)
+| XLabEqMean (a b : vexpr)                (* np.mean(a == b) for two label vectors *)
+| XUnique (a : vexpr)                     (* np.unique(labels, return_counts=True)[0] (non-negative labels) *)
+| XUniqueCounts (a : vexpr)               (* np.unique(labels, return_counts=True)[1] *)
+| XGather (v idx : vexpr).                (* v[idx] for an integer index vector *)
 
 Section Carrier.
   Context {T : Type}.
@@ -85,6 +96,13 @@ Section Carrier.
   Definition vsum (n : nat) (f : nat -> T) : T := g_sum tadd t0 (map f (seq 0 n)).
   Definition count_true (n : nat) (b : nat -> bool) : nat := List.length (filter b (seq 0 n)).
   Definition pinvT (w : T) : T := if teqb w t0 then t0 else tdiv t1 w.
+  Definition labmax (l : list Z) : Z := fold_right Z.max (-1)%Z l.
+  Definition mask_filter (l : list Z) (n : nat) (b : nat -> bool) : list Z :=
+    map (fun p => nth p l (-1)%Z) (filter b (seq 0 n)).
+  Definition lab_count (l : list Z) (c : Z) : nat := List.length (filter (Z.eqb c) l).
+  (** the distinct non-negative labels of [l] in increasing order *)
+  Definition lab_unique (l : list Z) : list Z :=
+    filter (fun c => negb (lab_count l c =? 0)) (map Z.of_nat (seq 0 (Z.to_nat (labmax l + 1)))).
 
   Definition vop (o : binop) : T -> T -> T :=
     match o with
@@ -126,7 +144,11 @@ Section Carrier.
         | _, _ => None
         end
     | XGe0 a =>
-        match vdenote r a with Some (WV n f) => Some (WB n (fun i => tleb t0 (f i))) | _ => None end
+        match vdenote r a with
+        | Some (WV n f) => Some (WB n (fun i => tleb t0 (f i)))
+        | Some (WLab l) => Some (WB (List.length l) (fun i => (0 <=? nth i l (-1))%Z))
+        | _ => None
+        end
     | XLen a =>
         match vdenote r a with
         | Some (WV n _) => Some (WN n) | Some (WB n _) => Some (WN n) | Some (WM n _ _) => Some (WN n)
@@ -288,7 +310,58 @@ Section Carrier.
         match vdenote r a with
         | Some (WV n f) => Some (WS (vsum n f))
         | Some (WM n k f) => Some (WS (vsum n (fun i => vsum k (f i))))
+        | Some (WB n b) => Some (WN (count_true n b))
         | _ => None
+        end
+    | XAnd a b =>
+        match vdenote r a, vdenote r b with
+        | Some (WB n f), Some (WB n' g) => if n =? n' then Some (WB n (fun i => f i && g i)) else None
+        | _, _ => None
+        end
+    | XGt0 a =>
+        match vdenote r a with Some (WV n f) => Some (WB n (fun i => negb (tleb (f i) t0))) | _ => None end
+    | XZeros a => match vdenote r a with Some (WN n) => Some (WV n (fun _ => t0)) | _ => None end
+    | XIfCount c t =>
+        match vdenote r c with
+        | Some (WN k) => if k =? 0 then None else vdenote r t
+        | _ => None
+        end
+    | XMaskLab a m =>
+        match vdenote r a, vdenote r m with
+        | Some (WLab l), Some (WB n b) => if List.length l =? n then Some (WLab (mask_filter l n b)) else None
+        | _, _ => None
+        end
+    | XCoo d rw cl nn =>
+        match vdenote r d, vdenote r rw, vdenote r cl, vdenote r nn with
+        | Some (WV k f), Some (WLab lr), Some (WLab lc), Some (WN n) =>
+            if (List.length lr =? k) && (List.length lc =? k)
+            then Some (WM n n (fun i j => vsum k (fun p =>
+                   if Z.eqb (nth p lr (-1)%Z) (Z.of_nat i) && Z.eqb (nth p lc (-1)%Z) (Z.of_nat j) then f p else t0)))
+            else None
+        | _, _, _, _ => None
+        end
+    | XLabEqMean a b =>
+        match vdenote r a, vdenote r b with
+        | Some (WLab l), Some (WLab l') =>
+            if List.length l =? List.length l'
+            then Some (WS (tdiv (tnat (count_true (List.length l) (fun p => Z.eqb (nth p l (-1)%Z) (nth p l' (-1)%Z))))
+                                (tnat (List.length l))))
+            else None
+        | _, _ => None
+        end
+    | XUnique a => match vdenote r a with Some (WLab l) => Some (WLab (lab_unique l)) | _ => None end
+    | XUniqueCounts a =>
+        match vdenote r a with
+        | Some (WLab l) => let u := lab_unique l in
+                           Some (WV (List.length u) (fun i => tnat (lab_count l (nth i u (-1)%Z))))
+        | _ => None
+        end
+    | XGather v ix =>
+        match vdenote r v, vdenote r ix with
+        | Some (WV n f), Some (WLab l) =>
+            if forallb (fun z => (0 <=? z)%Z && (z <? Z.of_nat n)%Z) l
+            then Some (WV (List.length l) (fun i => f (Z.to_nat (nth i l 0%Z)))) else None
+        | _, _ => None
         end
     | XLoop c x body rest =>
         match vdenote r c, vlookup x r with
@@ -349,6 +422,9 @@ Definition qenv_normalizer_v (A : list (list Q)) (n k : nat) (reg : Q) (x : list
   ("adjacency", wmat 0%Q A n k) :: ("regularization", WS reg) :: ("matrix", wvec 0%Q x) :: nil.
 Definition qenv_normalizer_m (A : list (list Q)) (n k : nat) (reg : Q) (X : list (list Q)) (r c : nat) : venv :=
   ("adjacency", wmat 0%Q A n k) :: ("regularization", WS reg) :: ("matrix", wmat 0%Q X r c) :: nil.
+
+(** environment of the classification metrics: the two label vectors *)
+Definition qenv_metrics (lt lp : list Z) : @venv Q := ("labels_true", WLab lt) :: ("labels_pred", WLab lp) :: nil.
 
 (** environment of Convolution.forward: adjacency, features, weight, bias and the two boolean options *)
 Definition qenv_conv (A : list (list Q)) (n : nat) (X : list (list Q)) (d : nat) (W : list (list Q)) (o : nat) (b : list Q)
